@@ -198,7 +198,15 @@ ENS_PREFIX_KEPT(buf)
 #define ADV_OK_OLD(c, n) (OLD((c)->len) <= SIZE_HALF && (n) <= SIZE_HALF && (n) <= OLD((c)->len))
 
 /* VERIF_ADVANCE_HUGE: also views longer than any object (unbacked), to reach lengths next to SIZE_MAX/2 */
-#ifdef VERIF_ADVANCE_HUGE
+/* VERIF_ADVANCE_HALF isolates the one length at which aws_byte_cursor_advance_nospec misbehaves on the pinned tree
+ * (known finding KF-C01-1: cursor->len == SIZE_MAX/2); VERIF_ADVANCE_HUGE alone covers every other unbacked length. */
+#if defined(VERIF_ADVANCE_HUGE) && defined(VERIF_ADVANCE_HALF)
+#    define ADVANCE_CUR_REQ (CUR_OK_OR_HUGE(cursor) && cursor->len == SIZE_HALF)
+#    define APEQ(p, q) ((p) == (q))
+#elif defined(VERIF_ADVANCE_HUGE) && defined(VERIF_ADVANCE_NOT_HALF)
+#    define ADVANCE_CUR_REQ (CUR_OK_OR_HUGE(cursor) && cursor->len != SIZE_HALF)
+#    define APEQ(p, q) ((p) == (q))
+#elif defined(VERIF_ADVANCE_HUGE)
 #    define ADVANCE_CUR_REQ CUR_OK_OR_HUGE(cursor)
 #    define APEQ(p, q) ((p) == (q)) /* unbacked pointers are not valid: plain equality (the enforcing unit needs no value set) */
 #else
